@@ -234,8 +234,8 @@ def sany_all():
     bad = []
     try:
         for f in sorted(glob.glob(os.path.join(s.dir, "*.tla"))):
-            if os.path.basename(f) in ("CacheLayoutProofs.tla",):
-                continue        # needs the TLAPS standard module: checked by tlapm in C11
+            if os.path.basename(f) in ("CacheLayoutProofs.tla", "CacheHistoryProofs.tla"):
+                continue        # needs the TLAPS standard module: checked by tlapm in C10 / C11
             p = subprocess.run(["java", "-cp", JAR, "tla2sany.SANY", os.path.basename(f)], cwd=s.dir,
                                stdout=subprocess.PIPE, stderr=subprocess.STDOUT, text=True)
             if p.returncode != 0 or "error" in p.stdout.lower().replace("errors: 0", ""):
